@@ -1347,6 +1347,51 @@ Gen.g_bulk_create = g_bulk_create
 Gen.g_clone_twice = g_clone_twice
 
 
+def g_dependency_scenario(self):
+    """A Property that depends on a sibling, validated, the sibling renamed, validated again: one
+    op per call, chosen by looking at the state (Section with two Properties -> dependency set to
+    the sibling's name -> validate -> rename the sibling (same number of children) -> validate)."""
+    mem = self.__dict__.setdefault("_depscen", {})
+    live = [(p, q) for p in self.props() if p.parent is not None and isinstance(p.dependency, str)
+            for q in p.parent.properties if q is not p and q.name == p.dependency]
+    if mem.get("renamed") is not None:
+        x = self.U.objs[mem.pop("renamed")] if mem["renamed"] < len(self.U.objs) else None
+        mem.clear()
+        if x is not None:
+            return {"op": "validate", "x": self.ref(x)}
+    if not live:
+        secs = [s_ for s_ in self.secs() if len(s_.properties) >= 2]
+        if not secs:
+            t = self.pick(self.secs())
+            if t is None or not self.room():
+                return None
+            name = next((n for n in FRESH if not any(p.name == n for p in t.properties)), None)
+            if name is None:
+                return None
+            return {"op": "create_property", "t": self.ref(t), "name": name, "dtype": "string",
+                    "values": "abc"}
+        sec = self.pick(secs)
+        p, q = sec.properties[0], sec.properties[-1]
+        if self.chance(0.5):
+            p, q = q, p
+        return {"op": "set_attr", "x": self.ref(p), "attr": "dependency", "v": q.name}
+    p, q = self.pick(live)
+    top = self.U.top(p)
+    scope = self.pick([top, p.parent])
+    key = self.U.index(p)
+    if mem.get("validated") != key:
+        mem["validated"] = key
+        return {"op": "validate", "x": self.ref(scope)}
+    name = next((n for n in FRESH if not any(c.name == n for c in p.parent.properties)), None)
+    if name is None:
+        return None
+    mem["renamed"] = self.U.index(scope)
+    return {"op": "rename", "x": self.ref(q), "name": name}
+
+
+Gen.g_dependency_scenario = g_dependency_scenario
+
+
 def g_linked_copy(self):
     """Copies of Sections whose link is resolved, cleaned on either side later: one op per call,
     chosen by looking at the state (document -> target with a definition -> linker without ->
